@@ -4,6 +4,10 @@ Run under /venv/bin/python.  The implementation under test is imported from REPO
 (REPO defaults to /repo; VERIF_REPO overrides it for experiments on scratch worktrees).
 """
 from __future__ import annotations
+import sys as _sys
+if hasattr(_sys, 'set_int_max_str_digits'):
+    _sys.set_int_max_str_digits(0)          # exact rationals of the model can have thousands of digits (rules for n up to 20)
+
 import fcntl
 import json
 import os
